@@ -176,7 +176,7 @@ func TestVerifC01(t *testing.T) {
 		case "type":
 			post["type"], actor["type"] = "Note"+p, "Person"+p
 		case "url":
-			post["url"] = "https://x.example/" + p
+			post["url"] = []string{"https://x.example/" + p, "https://x.example/v?q=" + p, "mailto:" + p}[len(p)%3]
 		case "url.href":
 			post["url"] = map[string]any{"type": "Link", "href": "https://x.example/a" + p, "name": p}
 		case "url.mediaType":
@@ -184,7 +184,11 @@ func TestVerifC01(t *testing.T) {
 		case "attachment.name":
 			post["attachment"] = []any{map[string]any{"type": "Document", "url": "https://x.example/f", "name": "file " + p}}
 		case "attachment.url":
-			post["attachment"] = []any{map[string]any{"type": "Image", "url": "https://x.example/" + p}, map[string]any{"type": "Link", "href": p}}
+			// the payload in every part of an address: path, the whole reference, query, opaque part, fragment, userinfo (nameless
+			// attachments are labelled with their address)
+			post["attachment"] = []any{map[string]any{"type": "Image", "url": "https://x.example/" + p}, map[string]any{"type": "Link", "href": p},
+				map[string]any{"type": "Document", "url": "https://x.example/f?q=" + p + "&r=1"}, map[string]any{"type": "Link", "href": "mailto:" + p},
+				map[string]any{"type": "Document", "url": "https://x.example/f#" + p}, map[string]any{"type": "Link", "href": "https://u" + p + "@x.example/"}}
 		case "attachment.type":
 			post["attachment"] = []any{map[string]any{"type": "Doc" + p, "url": "https://x.example/f"}}
 		case "attributedTo.name":
@@ -449,13 +453,37 @@ func TestVerifC01(t *testing.T) {
 		if c.Guard("control:ui:", d, func() { x.s.Subcommand("open", entry.ID) }) || !x.settle(30*time.Second) {
 			continue
 		}
-		for _, tk := range randomTokens(r, g, feedNames, c.Pick(80, 200), false) {
+		tokens := randomTokens(r, g, feedNames, c.Pick(80, 200), false)
+		for i := 3; i < len(tokens); i += 5 {
+			// the first link of whatever is highlighted then (hostile addresses are in the bodies) is opened with the hook
+			tokens[i] = tok("number 1 then \"\\r\"", []string{"1\r", "2\r", "o"}[r.Intn(3)])
+		}
+		for _, tk := range tokens {
 			stop := false
+			opens := tk.desc == "media" || strings.HasPrefix(tk.desc, "number")
+			if opens {
+				os.Setenv("VERIF_HOOK_SLEEP_MS", "250")
+			}
 			for _, b := range tk.keys {
 				b := b
 				if c.Guard("control:ui:", d, func() { x.s.Update(b) }) {
 					stop = true
 					break
+				}
+			}
+			if opens {
+				os.Unsetenv("VERIF_HOOK_SLEEP_MS")
+				if sn := x.snap(); !stop && sn.mode == opening {
+					// while the status line shows the address being opened, the terminal passes through every width around the length
+					// of that line: text that fits exactly, lacks one column or has one to spare takes different paths
+					l := len([]rune(sn.buf))
+					for w := l - 3; w <= l+24; w++ {
+						if w >= 4 {
+							x.s.SetWidthHeight(w, 12)
+							c.Count("status_line_width_sweep_frames", 1)
+						}
+					}
+					x.s.SetWidthHeight(sn.width, sn.height)
 				}
 			}
 			if stop || !x.settle(30*time.Second) {
